@@ -83,4 +83,4 @@ def fold(run, cases, results):
         if r.get("wall", 0) > 20:
             slow.append((round(r["wall"], 1), r["name"], r["key"]))
     if slow:
-        run.extra["slow_cases"] = sorted(slow, reverse=True)[:10]
+        run.extra["slow_cases"] = sorted(slow, key=lambda x: -x[0])[:10]
